@@ -14,22 +14,23 @@ CHECK = {
            'tree over every subset of the universe is visited and every state is re-entered by replaying its shortest history on a '
            'fresh tree; after every transition: white-box red-black audit (search order, black root, no red-red, equal black '
            'heights, parent links, node count == len, height <= 2*log2(n+1)) and, once per distinct concrete state, the black-box '
-           'ordered-map oracle (len, mem and get of every key of the universe, KeyError for absent keys, forward iteration strictly '
+           'ordered-map oracle (len, mem and get of every key of the universe (for the 20-byte plain-struct value type every byte of every binding against the bytes last stored), KeyError for absent keys, forward iteration strictly '
            'monotone over exactly the reference keys, backward iteration the exact reverse); distinct_nontrivial = states with black '
            'height >= 2 (a black node below the root: reachable only through propagated recolouring, and where the double-black '
            'repair cases of removal are reachable) plus ladder runs with >= 4 keys; ladders = N keys inserted then removed in each of '
            '4 x 4 enumerated orders (ascending, descending, alternating ends, stride), cheap root-path height bound + len/mem/get at '
            'every step, full audit and full iteration comparison at every step for N <= 300 and at every 64th step otherwise'),
   'bounds': {
-    'quick': ('to fixpoint: Int keys 11-key universe x 1 value (3.99e4 concrete trees) and 7 keys x 2 values (gcc), 9 keys and 5x2 under ASan+UBSan; '
+    'quick': ('mixed key/value sizes (Int->Blob20 9 and 6x2 keys, 8 under ASan; Int->Probe 8; Probe->Int 8, 5x2 under ASan; String->Probe 8; Probe->Blob20 6x2); to fixpoint: Int keys 11-key universe x 1 value (3.99e4 concrete trees) and 7 keys x 2 values (gcc), 9 keys and 5x2 under ASan+UBSan; '
               'String keys 10 and 6x2, 8 under ASan, 4x2 with the stored-key alias operation under ASan; Probe keys+values with the ledger 10 and 6x2, 8 and 5x2 under ASan; '
               'ladders N in {1,2,3,7,16,33,100,300,1000,4000,10000} Int, {100,1000,4000} String, {1,2,3,16,100,1000} under ASan, 16 order pairs each'),
-    'thorough': ('to fixpoint: Int keys 14-key universe x 1 value (8.9e5 concrete trees, deepest shortest history 26) and 9 keys x 2 values (4.2e5), 12 keys and 8x2 under ASan+UBSan; '
+    'thorough': ('mixed key/value sizes (Int->Blob20 12 and 8x2, 11 under ASan; Int->Probe 11; Probe->Int 11, 7x2 under ASan; String->Probe 11, 7x2 under ASan; Probe->Blob20 8x2); to fixpoint: Int keys 14-key universe x 1 value (8.9e5 concrete trees, deepest shortest history 26) and 9 keys x 2 values (4.2e5), 12 keys and 8x2 under ASan+UBSan; '
                  'String keys 13 and 9x2, 11 under ASan, 6x2 with the alias operation under ASan; Probe keys+values 13 and 9x2, 11 and 6x2 under ASan; '
                  'ladders to 10000 keys Int and String (21 / 6 sizes), to 4000 Int and 1000 String under ASan'),
   },
   'assumptions': [
     'keys outside the universe are represented by it: the tree depends on keys only through cmp, and Int/String/Probe keys 0..N-1 give every order type of N keys',
+    'the white-box audit also requires ksize >= size(key type) and vsize >= size(value type) (the slot sizes every node is allocated and copied with)',
     'white-box view obtained by compiling the repository\'s own Tree.c into the harness; only strict monotonicity of the in-order sequence is required, not its direction',
     'the black-box oracle is evaluated once per distinct concrete state; the audit (which runs after every transition) establishes that the node structure is exactly the canonical string',
     'gcc/clang, glibc and the sanitizer run-times are trusted',
@@ -48,6 +49,15 @@ CHECK = {
       T('probe6x2', 'base', 'keys=probe', 'vals=probe', 'prop=C05', 'nkeys=6', 'nvals=2', 'alias=1'),
       T('probe5x2-asan', 'asan', 'keys=probe', 'vals=probe', 'prop=C05', 'nkeys=5', 'nvals=2', 'alias=1'),
       T('probe8-asan', 'asan', 'keys=probe', 'vals=probe', 'prop=C05', 'nkeys=8', 'nvals=1'),
+      # key and value types of different sizes (8/20, 8/24, 24/8, 24/20 bytes): slot sizes, predecessor copy, assign/copy/constructor
+      T('int-blob9', 'base', 'keys=int', 'vals=blob', 'nkeys=9', 'nvals=1', 'alias=1'),
+      T('int-blob6x2', 'base', 'keys=int', 'vals=blob', 'nkeys=6', 'nvals=2', 'alias=1'),
+      T('int-blob8-asan', 'asan', 'keys=int', 'vals=blob', 'nkeys=8', 'nvals=1', 'alias=1'),
+      T('int-probe8', 'base', 'keys=int', 'vals=probe', 'nkeys=8', 'nvals=1', 'alias=1'),
+      T('probe-int8', 'base', 'keys=probe', 'vals=int', 'nkeys=8', 'nvals=1', 'alias=1'),
+      T('probe-int5x2-asan', 'asan', 'keys=probe', 'vals=int', 'nkeys=5', 'nvals=2', 'alias=1'),
+      T('str-probe8', 'base', 'keys=str', 'vals=probe', 'nkeys=8', 'nvals=1'),
+      T('probe-blob6x2', 'base', 'keys=probe', 'vals=blob', 'nkeys=6', 'nvals=2', 'alias=1'),
       T('ladder-int', 'base', 'mode=ladder', 'keys=int', 'sizes=1,2,3,7,16,33,100,300,1000,4000,10000'),
       T('ladder-str', 'base', 'mode=ladder', 'keys=str', 'sizes=100,1000,4000'),
       T('ladder-asan', 'asan', 'mode=ladder', 'keys=int', 'sizes=1,2,3,16,100,1000'),
@@ -65,6 +75,16 @@ CHECK = {
       T('probe9x2', 'base', 'keys=probe', 'vals=probe', 'prop=C05', 'nkeys=9', 'nvals=2', 'alias=1'),
       T('probe6x2-asan', 'asan', 'keys=probe', 'vals=probe', 'prop=C05', 'nkeys=6', 'nvals=2', 'alias=1'),
       T('probe11-asan', 'asan', 'keys=probe', 'vals=probe', 'prop=C05', 'nkeys=11', 'nvals=1'),
+      # key and value types of different sizes
+      T('int-blob12', 'base', 'keys=int', 'vals=blob', 'nkeys=12', 'nvals=1', 'alias=1'),
+      T('int-blob8x2', 'base', 'keys=int', 'vals=blob', 'nkeys=8', 'nvals=2', 'alias=1'),
+      T('int-blob11-asan', 'asan', 'keys=int', 'vals=blob', 'nkeys=11', 'nvals=1', 'alias=1'),
+      T('int-probe11', 'base', 'keys=int', 'vals=probe', 'nkeys=11', 'nvals=1', 'alias=1'),
+      T('probe-int11', 'base', 'keys=probe', 'vals=int', 'nkeys=11', 'nvals=1', 'alias=1'),
+      T('probe-int7x2-asan', 'asan', 'keys=probe', 'vals=int', 'nkeys=7', 'nvals=2', 'alias=1'),
+      T('str-probe11', 'base', 'keys=str', 'vals=probe', 'nkeys=11', 'nvals=1'),
+      T('str-probe7x2-asan', 'asan', 'keys=str', 'vals=probe', 'nkeys=7', 'nvals=2'),
+      T('probe-blob8x2', 'base', 'keys=probe', 'vals=blob', 'nkeys=8', 'nvals=2', 'alias=1'),
       T('ladder-int', 'base', 'mode=ladder', 'keys=int', 'sizes=1,2,3,4,5,6,7,8,15,16,17,31,32,33,64,100,255,300,1000,4000,10000'),
       T('ladder-str', 'base', 'mode=ladder', 'keys=str', 'sizes=16,100,300,1000,4000,10000'),
       T('ladder-asan', 'asan', 'mode=ladder', 'keys=int', 'sizes=1,2,3,16,100,300,1000,4000'),
